@@ -3699,12 +3699,40 @@ static void state_write_content(struct snapraid_state* state, uint32_t* out_crc)
 	*out_crc = crc;
 }
 
+/**
+ * Get the CRC stored in the last four bytes of a content file.
+ * Return 0 on success.
+ */
+static int state_content_crc(const char* path, data_off_t size, unsigned char* crc)
+{
+	int f;
+	ssize_t ret;
+
+	if (size < 4)
+		return -1;
+
+	f = open(path, O_RDONLY | O_BINARY);
+	if (f == -1)
+		return -1;
+
+	ret = pread(f, crc, 4, size - 4);
+
+	close(f);
+
+	if (ret != 4)
+		return -1;
+
+	return 0;
+}
+
 void state_read(struct snapraid_state* state)
 {
 	STREAM* f;
 	char path[PATH_MAX];
 	struct stat st;
 	tommy_node* node;
+	unsigned char crc[4];
+	int crc_is_valid;
 	int ret;
 	int c;
 
@@ -3765,10 +3793,14 @@ void state_read(struct snapraid_state* state)
 		/* LCOV_EXCL_STOP */
 	}
 
+	/* get the stored CRC to compare it with the one of the other content files */
+	crc_is_valid = state_content_crc(path, st.st_size, crc) == 0;
+
 	/* go further to check other content files */
 	while (node) {
 		char other_path[PATH_MAX];
 		struct stat other_st;
+		unsigned char other_crc[4];
 		struct snapraid_content* content = node->data;
 		pathcpy(other_path, sizeof(other_path), content->content);
 
@@ -3789,6 +3821,16 @@ void state_read(struct snapraid_state* state)
 			if (other_st.st_size != st.st_size) {
 				log_fatal("WARNING! Content files '%s' and '%s' have a different size!\n", path, other_path);
 				log_fatal("Likely one of the two is broken!\n");
+
+				/* ensure to rewrite all the content files */
+				state->need_write = 1;
+			} else if (!crc_is_valid
+				|| state_content_crc(other_path, other_st.st_size, other_crc) != 0
+				|| memcmp(crc, other_crc, 4) != 0
+			) {
+				/* same size, but different content, like after an interrupted save */
+				log_fatal("WARNING! Content files '%s' and '%s' are different!\n", path, other_path);
+				log_fatal("Likely one of the two is outdated or broken!\n");
 
 				/* ensure to rewrite all the content files */
 				state->need_write = 1;
